@@ -123,7 +123,28 @@ type MDStr string
 
 func (s MDStr) Markdown() native.Markdown { return native.Markdown(s) }
 
+type HTMLEnvStr string
+
+func (s HTMLEnvStr) HTML(env native.Env) native.HTML { return native.HTML(s) }
+
+type CSSEnvStr string
+
+func (s CSSEnvStr) CSS(env native.Env) native.CSS { return native.CSS(s) }
+
+type JSEnvStr string
+
+func (s JSEnvStr) JS(env native.Env) native.JS { return native.JS(s) }
+
+type JSONEnvStr string
+
+func (s JSONEnvStr) JSON(env native.Env) native.JSON { return native.JSON(s) }
+
+type MDEnvStr string
+
+func (s MDEnvStr) Markdown(env native.Env) native.Markdown { return native.Markdown(s) }
+
 var libTypes = map[string]reflect.Type{
+	"HTMLEnvStr": reflect.TypeFor[HTMLEnvStr](), "CSSEnvStr": reflect.TypeFor[CSSEnvStr](), "JSEnvStr": reflect.TypeFor[JSEnvStr](), "JSONEnvStr": reflect.TypeFor[JSONEnvStr](), "MDEnvStr": reflect.TypeFor[MDEnvStr](),
 	"MyString": reflect.TypeFor[MyString](), "MyInt": reflect.TypeFor[MyInt](), "MyFloat": reflect.TypeFor[MyFloat](), "MyBool": reflect.TypeFor[MyBool](),
 	"StrStringer": reflect.TypeFor[StrStringer](), "IntStringer": reflect.TypeFor[IntStringer](), "EnvStr": reflect.TypeFor[EnvStr](),
 	"MyErr": reflect.TypeFor[MyErr](), "error": reflect.TypeFor[error](), "Inner": reflect.TypeFor[Inner](), "Outer": reflect.TypeFor[Outer](), "Tagged": reflect.TypeFor[Tagged](),
@@ -135,7 +156,7 @@ var libTypes = map[string]reflect.Type{
 var (
 	LibUntrustedScalars = []string{"MyString", "MyInt", "MyFloat", "MyBool", "StrStringer", "IntStringer", "EnvStr", "MyErr", "error"}
 	LibStructs          = []string{"Inner", "Outer", "Tagged"}
-	LibTrusted          = []string{"native.HTML", "native.CSS", "native.JS", "native.JSON", "native.Markdown", "HTMLStr", "CSSStr", "JSStr", "JSONStr", "MDStr"}
+	LibTrusted          = []string{"native.HTML", "native.CSS", "native.JS", "native.JSON", "native.Markdown", "HTMLStr", "CSSStr", "JSStr", "JSONStr", "MDStr", "HTMLEnvStr", "CSSEnvStr", "JSEnvStr", "JSONEnvStr", "MDEnvStr"}
 )
 
 var basic = map[string]reflect.Type{
@@ -237,7 +258,7 @@ func (tv TV) Value() reflect.Value {
 		}
 	case "lib":
 		switch t.Lib {
-		case "MyString", "StrStringer", "EnvStr", "native.HTML", "native.CSS", "native.JS", "native.JSON", "native.Markdown", "HTMLStr", "CSSStr", "JSStr", "JSONStr", "MDStr":
+		case "MyString", "StrStringer", "EnvStr", "native.HTML", "native.CSS", "native.JS", "native.JSON", "native.Markdown", "HTMLStr", "CSSStr", "JSStr", "JSONStr", "MDStr", "HTMLEnvStr", "CSSEnvStr", "JSEnvStr", "JSONEnvStr", "MDEnvStr":
 			out.SetString(string(v.S))
 		case "MyInt", "IntStringer":
 			out.SetInt(v.I)
